@@ -72,7 +72,8 @@ def _abort_case(draw, tier):
         delay = d.pick([20, 50, 100])
         t0 = d.pick([1, delay // 2, delay - 1])
         depth = d.int(0, 2)
-        bad_kind = d.pick(["missing-action-transition", "missing-action-entry", "unresolvable-target", "missing-service"])
+        bad_kind = d.pick(["missing-action-transition", "missing-action-entry", "unresolvable-target", "missing-service",
+                           "missing-action-exit", "missing-action-exit"])
         return {"kind": "abort-timer", "engine": engine, "delay": delay, "t0": t0, "depth": depth, "bad": bad_kind}
     prof = gen.profile(**dict(BASE, nested_builtins=False, two_markers=False))
     spec = draw(gen.machine_specs(prof))
@@ -321,6 +322,14 @@ def _timer_spec(case):
     elif bad == "missing-service":
         x["invoke"] = [{"src": "svc_missing", "id": "im"}]
     s = {"key": "s", "kind": "atomic", "after": [[delay, [{"target": ["t"], "actions": []}]]], "on": [["BAD", [badT]], ["PING", [{"target": None, "actions": []}]]]}
+    if bad == "missing-action-exit":
+        # the abort happens while the timed state itself is being exited (its timer is already
+        # cancelled); the timed transition stays inside the state so that it can complete later
+        s = {"key": "s", "kind": "compound", "initial": "c", "exit": [{"k": "user", "name": "u_missing"}],
+             "after": [[delay, [{"target": ["s", "late"], "actions": []}]]],
+             "on": [["BAD", [badT]], ["PING", [{"target": None, "actions": []}]]],
+             "children": [{"key": "c", "kind": "atomic"}, {"key": "late", "kind": "atomic"}]}
+        depth = 0
     inner = s
     for i in range(depth):
         inner = {"key": "s", "kind": "compound", "initial": inner["key"] if i else "s", "children": [inner],
@@ -360,7 +369,8 @@ def check_abort_timer(case, res: CaseResult):
     if not any(e[0] == "recv" and e[1] == "PING" for e in ping.log) or not any(e[0] == "trans" for e in ping.log):
         res.violate(f"{engine}|interpreter-dead-after-abort|{shape}", {"log": [e[:2] for e in ping.log][:6]})
     last = steps[4]
-    if "m.t" not in last.cfg:
+    want = "m.s.late" if case["bad"] == "missing-action-exit" else "m.t"
+    if want not in last.cfg:
         res.violate(f"{engine}|after-timer-lost-by-rollback|{shape}", {"cfg": sorted(last.cfg), "delay": delay, "t0": t0})
     res.nontrivial = True
     res.nontrivial_keys = [case_fp(case)]
